@@ -45,6 +45,11 @@ def run(ctx):
             lin = True
         if ctx.rng.random() < 0.3:
             shape = add_swapped_parallel_edge(ctx.rng, shape)
+            if recursive:
+                # the copied edge may be a nonterminal edge of the rule's own SCC: linearity has to be re-derived
+                # (a stale `lin` made the harness call method='linear' on X -> X X and report the library's
+                # correct ValueError as a violation: false alarm, corrected here)
+                rec, lin = sccs_and_linearity(shape)
         if run_case(ctx, shape, recursive, lin):
             k += 1
 
